@@ -531,7 +531,14 @@ impl IncrementalEngine {
                     // Keys are in format "FactType.field" or "FactType.handle.field"
                     // We want to extract the FactType and field name
                     if let Some(original_value) = original_facts.get(key) {
-                        if original_value != value {
+                        // NaN is not equal to itself: an untouched NaN field must not be
+                        // mistaken for a modification (it would be copied into every fact
+                        // of the type)
+                        let both_nan = matches!(
+                            (original_value, value),
+                            (FactValue::Float(a), FactValue::Float(b)) if a.is_nan() && b.is_nan()
+                        );
+                        if original_value != value && !both_nan {
                             // Value changed! Extract fact type and field
                             let parts: Vec<&str> = key.split('.').collect();
                             if parts.len() >= 2 {
